@@ -24,11 +24,11 @@ ASSUMPTIONS = [
 ]
 FLOORS = {"quick": {"getscript-cases": 20000, "listscripts-cases": 20000,
                     "served-quoted": 15000, "served-literal": 20000,
-                    "getscript-cases-segmented-with-debug": 10000,
+                    "getscript-cases-segmented-with-debug": 10000, "getscript-big-cases": 20,
                     "listscripts-cases-segmented-with-debug": 10000},
           "thorough": {"getscript-cases": 150000, "listscripts-cases": 150000,
                        "served-quoted": 100000, "served-literal": 150000,
-                       "getscript-cases-segmented-with-debug": 80000,
+                       "getscript-cases-segmented-with-debug": 80000, "getscript-big-cases": 20,
                        "listscripts-cases-segmented-with-debug": 80000}}
 SHARD_TIMEOUT = {"quick": 600, "thorough": 3000}
 
@@ -60,6 +60,9 @@ def plan(tier, seed):
     for i, (s, e) in enumerate(split(n, k)):
         out.append({"w": "bodies", "n": e - s, "rs": seed * 1000003 + i})
         out.append({"w": "names", "n": e - s, "rs": seed * 7919 + i})
+    # scripts whose size needs 6, 7 and 8 digits in the literal header
+    for i, size in enumerate([99999, 100000, 999999, 1000000, 1048576, 5000000, 16777216]):
+        out.append({"w": "big", "size": size, "rs": seed + i})
     return out
 
 
@@ -228,8 +231,35 @@ def run_names(shard, res: Result):
                             "encoding": how}, 2)
 
 
+def run_big(shard, res: Result):
+    rng = random.Random(shard["rs"])
+    line = b"# " + b"0123456789" * 7 + b"\r\n"
+    body = (line * (shard["size"] // len(line) + 1))[:shard["size"] - 7] + b"\r\nkeep;"
+    body = body[:shard["size"]]
+    for seg in (ms.Seg(), ms.Seg(rng=random.Random(rng.randrange(1 << 30))), ms.Seg(cap=4096)):
+        srv = ms.Server(users={b"user": b"pw"}, scripts={b"s": body}, encodings="quoted")
+        srv.how_script = lambda: "literal"
+        sess, r = mslab.authed_session(srv, seg, debug=False)
+        out = sess.call("getscript", "s")
+        res.count("getscript-cases")
+        res.count("getscript-big-cases")
+        res.observe("big-script-sizes", str(len(body)))
+        res.case(repr(("big", len(body), seg.describe())))
+        ok = out[0] == "ret" and isinstance(out[1], str) and \
+            norm_lines(out[1]) == norm_lines(body.decode("utf-8"))
+        res.monitor("getscript-transparency", not ok)
+        if not ok:
+            res.violation({"op": "getscript", "encoding": "literal", "cause": "size",
+                           "outcome": "differs" if out[0] == "ret" else
+                           (out[1] if out[0] == "exc" else "hang")},
+                          {"stored_octets": len(body), "delivery": seg.describe(),
+                           "returned": repr(out)[:200]})
+
+
 def run_shard(tier, shard, res: Result):
-    if shard["w"] == "bodies":
+    if shard["w"] == "big":
+        run_big(shard, res)
+    elif shard["w"] == "bodies":
         run_bodies(shard, res)
     else:
         run_names(shard, res)
